@@ -33,7 +33,12 @@ func refDecision(sc *Scenario, bv *View, pc *st.RequestContext, blockTimeOf *Vie
 	d := batchDecision{Total: new(big.Int)}
 	cap := coinAmt(pc.ServiceFeeCap)
 	rate := rateFn(sc, blockTimeOf.Params.BaseDenom, blockTimeOf.S.Height)
+	seen := map[string]bool{}
 	for _, p := range pc.Providers {
+		if seen[string(p)] {
+			continue // "a request for exactly those providers named in the context": a provider is named once, however often it is listed
+		}
+		seen[string(p)] = true
 		b := bv.Binding(pc.ServiceName, p)
 		if b == nil || !b.Available || b.QoS > uint64(pc.Timeout) {
 			continue
